@@ -70,6 +70,7 @@ func allChecksRaw() []*Check {
 			Files: []string{"gtree/common.go", "gtree/c01.go", "gtree/wide.go"},
 			Quick: []Job{
 				{Name: "C01.wide", Pkg: "gtree", Entry: "VerifWide", N: 0, RealParse: true, Expect: []string{"Wide.add.same", "Wide.md.text/iter", "Wide.md.text/noiter", "Wide.prog.text", "Wide.prog.walk", "Wide.end"}},
+				{Name: "C01.manyroots", Pkg: "gtree", Entry: "VerifManyRoots", N: 0, RealParse: true, Expect: []string{"ManyRoots.text/iter", "ManyRoots.text/noiter", "ManyRoots.walk", "ManyRoots.end"}},
 				gj("C01.tree.n6", "VerifC01", 6, "C01.nil", "C01.out", "C01.end"),
 				gj("C01.blank.n3", "VerifC01Blank", 3, "C01.blank.nil", "C01.blank.out", "C01.blank.end"),
 				gj("C01.bytes.n4", "VerifC01Bytes", 4, "C01.bytes.nil", "C01.bytes.out", "C01.bytes.end"),
@@ -79,7 +80,7 @@ func allChecksRaw() []*Check {
 				gj("C01.blank.n4", "VerifC01Blank", 4, "C01.blank.nil", "C01.blank.out", "C01.blank.end"),
 				gj("C01.bytes.n5", "VerifC01Bytes", 5, "C01.bytes.nil", "C01.bytes.out", "C01.bytes.end"),
 			},
-			Bounds: "forests of N item rows (quick N=6, thorough N=8): every well-formed depth sequence x every pattern of equal sibling names; names and the four branch strings are unconstrained strings of any length; both simple output routes; up to 2 blank rows at any position for N=3/4; byte level: forests of 4/5 rows with concrete names and the four branch strings as 0..2 arbitrary ASCII bytes each (strings of different lengths, code that measures or slices them). Outside: larger N, massive mode (C10), spellings other than the canonical one (L-parse, C15). Wide node (real parser): a root with 15..18 concrete children, one more row repeating a solver-chosen child's name or a new one, a grandchild below it, optionally a last new child; from Markdown (both routes) and programmatically (Add returns the existing node; text; walk count).",
+			Bounds: "forests of N item rows (quick N=6, thorough N=8): every well-formed depth sequence x every pattern of equal sibling names; names and the four branch strings are unconstrained strings of any length; both simple output routes; up to 2 blank rows at any position for N=3/4; byte level: forests of 4/5 rows with concrete names and the four branch strings as 0..2 arbitrary ASCII bytes each (strings of different lengths, code that measures or slices them). Outside: larger N, massive mode (C10), spellings other than the canonical one (L-parse, C15). Wide node (real parser): a root with 15..18 concrete children, one more row repeating a solver-chosen child's name or a new one, a grandchild below it, optionally a last new child; from Markdown (both routes) and programmatically (Add returns the existing node; text; walk count). Many roots: 15..18 root blocks of two or three rows and a last block whose root name may repeat an earlier one (roots are never merged); text both routes, callback walk.",
 			Assume: append([]string{parseContract}, commonAssume...),
 		},
 		{
